@@ -6,6 +6,21 @@ CLAIMS = {
   'text': 'Partial, structural: decides for every Div/DivAssign overload (all macro-generated forms) that no CFG path returns while the divisor may be zero. Does not decide correct rounding of the quotient.',
   'note': TRUST + ' Decides the zero-divisor clause only.',
  },
+ 'C02': {
+  'technique': 'static analysis: MIR panic-site enumeration over the call graph of the comparison impls (debug-profile facts) with interval/dominance discharge and a reviewed-site table',
+  'text': 'Partial, structural: decides "no comparison of finite decimals panics or depends on build profile" by enumerating every may-panic site (overflow/bounds asserts, debug_assert failures, unwrap/expect, slicing) reachable from PartialEq/PartialOrd/Ord on BigDecimal/BigDecimalRef; each is discharged by interval reasoning or matches a reviewed entry whose guarding condition is re-checked. Does not decide that the four comparison strategies return the right answer.',
+  'note': TRUST + ' Reviewed entries (tables/reviewed_panic_sites.json) carry human arguments; helper summaries count_decimal_digits_uint = digit count.',
+ },
+ 'C03': {
+  'technique': 'static analysis: MIR panic-site enumeration on Hash::hash (debug-profile facts)',
+  'text': 'Deliberately weak, partial claim: hashing does not panic (every may-panic site reachable from Hash::hash discharged or reviewed under the property\'s own bound |scale| <= 10^5). Agreement of hash with equality is NOT decided.',
+  'note': TRUST,
+ },
+ 'C05': {
+  'technique': 'static analysis: MIR panic-site enumeration over the parser call graph with interval/dominance discharge and reviewed UTF-8-boundary sites',
+  'text': 'Partial, structural: decides "no input string makes the parser panic" (all may-panic sites reachable from from_str_radix/from_str/parse_bytes discharged or reviewed with re-checked guards). The accepted grammar and the denoted value are NOT decided.',
+  'note': TRUST + ' str::find returns a char-boundary index; BigInt::from_str_radix panics only for radix outside 2..=36.',
+ },
 }
 _PENDING = 'check not built yet in this commit (implementation in progress, see DESIGN.md section 8)'
 NOT_APPLICABLE = {('C%02d' % i): _PENDING for i in range(1, 21) if ('C%02d' % i) not in CLAIMS}
